@@ -455,20 +455,28 @@ func (co *copyOut) classify() (lay layout, why string) {
 			}
 			lay.grp = st
 		default:
-			t, ok := singleSym(st.src)
-			sp := spanOf(st.ctx, t)
-			if !ok || sp == nil {
-				return lay, "a copy from args whose source position is not a loop variable"
+			// src = base + z for the innermost loop variable z in [lo, hi): it runs over args[srcLo, srcHi)
+			if len(st.ctx) == 0 {
+				return lay, "a copy from args outside any loop"
 			}
-			if sp.hi.eq(sym("n")) && !(len(sp.lo) == 0 && st.dst.eq(st.src)) { // tail: t in [T, len(args))
+			z := st.ctx[len(st.ctx)-1]
+			if st.src[z.sym] != 1 {
+				return lay, "a copy from args whose source position does not advance with the loop"
+			}
+			srcLo, srcHi := substSym(st.src, z.sym, z.lo), substSym(st.src, z.sym, z.hi)
+			if mentionsSym(srcLo, z.sym) || mentionsSym(srcHi, z.sym) {
+				return lay, "a copy from args whose source position is not linear in the loop variable"
+			}
+			switch {
+			case srcHi.eq(sym("n")) && !(len(srcLo) == 0 && st.dst.eq(st.src)): // tail: args[T, len(args))
 				if lay.tail != nil {
 					return lay, "more than one tail copy"
 				}
-				lay.tail, lay.T = st, sp.lo
-			} else if len(sp.lo) == 0 && st.dst.eq(st.src) { // prefix: new[p] = args[p], p in [0, P)
-				lay.P = sp.hi
+				lay.tail, lay.T = st, srcLo
+			case len(srcLo) == 0 && st.dst.eq(st.src): // prefix: new[p] = args[p], p in [0, P)
+				lay.P = srcHi
 				prefixes++
-			} else {
+			default:
 				return lay, "a copy from args that is neither prefix, kept group nor tail"
 			}
 		}
@@ -507,6 +515,36 @@ func (lay layout) rename(p poly, st *store) poly {
 			}
 		}
 		out[strings.Join(fs, "*")] += c
+	}
+	return out.norm()
+}
+
+func mentionsSym(p poly, s string) bool {
+	for m := range p {
+		if hasFactor(m, s) {
+			return true
+		}
+	}
+	return false
+}
+
+// substSym replaces the symbol s by val in p.
+func substSym(p poly, s string, val poly) poly {
+	out := poly{}
+	for m, c := range p {
+		fs := []string{}
+		if m != "" {
+			fs = strings.Split(m, "*")
+		}
+		term := konst(c)
+		for _, f := range fs {
+			if f == s {
+				term = term.mul(val)
+			} else {
+				term = term.mul(sym(f))
+			}
+		}
+		out = out.add(term, 1)
 	}
 	return out.norm()
 }
